@@ -705,6 +705,11 @@ func (w *World) CheckSweep(out *Outcome, runs []*Obs) []Violation {
 			if o.OK() {
 				vs = append(vs, v("C10", "outcome-disagrees-with-model", "must-fail", fmt.Sprintf("run %s: model says must fail (%s), got ok", label(o), out.Why)))
 			}
+		case Rejected:
+			// two distinct components under one name: refused whichever of them comes first
+			if o.OK() && !w.contributedDuplicate() {
+				vs = append(vs, v("C10", "outcome-disagrees-with-model", "must-reject", fmt.Sprintf("run %s: two distinct components claim one name (%s), got ok", label(o), out.Why)))
+			}
 		}
 	}
 	// (2) same success/failure for programs without tied points
@@ -1017,6 +1022,19 @@ func (w *World) hasWireAndFuncHolder() bool {
 		}
 		if wire && fn {
 			return true
+		}
+	}
+	return false
+}
+
+// contributedDuplicate: one of the claimants of a duplicated name is contributed through the
+// definition registry (not registered with the container: nothing refuses it at registration).
+func (w *World) contributedDuplicate() bool {
+	for _, n := range w.Duplicates() {
+		for _, id := range w.ByName[n] {
+			if i := w.Insts[id]; i != nil && i.Contributed {
+				return true
+			}
 		}
 	}
 	return false
